@@ -489,3 +489,23 @@ pub fn fam_isolated(b: &Base, out: &mut Vec<CaseSpec>) {
         }
     }
 }
+
+/// datagrams the sender cannot use (undecodable, OACK, DATA) at exact virtual-time offsets after every burst, while the
+/// client's real ACK is withheld: none of them may trigger a retransmission before the timeout (sender role)
+pub fn fam_junk_timing(b: &Base, out: &mut Vec<CaseSpec>) {
+    for burst in 0..b.n_bursts {
+        for (stray, sn) in [(Stray::Junk, "junk"), (Stray::Oack, "oack"), (Stray::DataRel(1), "data")] {
+            for (off, on) in [(1000u64, "eps"), (T / 2, "T/2"), (T - 1, "T-1ns")] {
+                out.push(with(b, "junktime", format!("burst{burst}:{sn}@{on}"), |s| {
+                    s.rules.push(Rule::InjectAfterBurst { burst, offset: off, stray, suppress: true, suppress_for: 0 });
+                }));
+            }
+            // a short series of them
+            out.push(with(b, "junktime", format!("burst{burst}:3x{sn}"), |s| {
+                for k in 0..3u64 {
+                    s.rules.push(Rule::InjectAfterBurst { burst, offset: T / 10 + k * (T / 10), stray, suppress: k == 0, suppress_for: T / 2 });
+                }
+            }));
+        }
+    }
+}
